@@ -14,6 +14,7 @@
 From Coq Require Import List Bool Arith NArith ZArith.
 Import ListNotations.
 From TI Require Import lib.Re lib.ReSound lib.CRe gen.Regexes model.FmtSpec proofs.FmtSpecProofs.
+From TI Require Import model.FmtEnv proofs.FmtEnvProofs.
 
 (** a specifier is accepted for a render style iff it is a sentence of the documented
     grammar  [h_align][width][.[v_align][height]][#[threshold|bgcolor]][+style]
@@ -82,3 +83,107 @@ Print Assumptions C19_certificate_checker_sound.
 Theorem C19_matches_is_language : forall w r, matches r w = true <-> lang r w.
 Proof. exact matches_lang. Qed.
 Print Assumptions C19_matches_is_language.
+
+(** * The environment in which format() is called (round 4)
+
+    [env] (model/FmtEnv.v): the terminal size the process is told, and which of its three
+    standard streams are on a terminal.  [impl_format e sty rs f sf]: BaseImage.__format__
+    (= _check_format_spec, then _format_render) in environment [e], for a render of size
+    [rs]; [geom_ok m rs g]: the rectangle the documented meaning [m] demands. *)
+
+(** in EVERY environment the formatted string has the documented geometry: padded width
+    and height (absent / zero = terminal-relative, a padding size not above the render
+    size has no effect), horizontal and vertical placement *)
+Theorem C19_format_geometry_agrees : forall e sty rs f sf,
+  (1 <= cols (e_ts e))%Z -> (3 <= lines (e_ts e))%Z -> (1 <= rc rs)%Z -> (1 <= rl rs)%Z ->
+  fields_wf f = true -> sf_ok sty sf = true ->
+  match impl_format e sty rs f sf with
+  | FOk g a sa =>
+      exists m, doc_interp (e_ts e) sty f sf = Some m /\ geom_ok m rs g = true
+                /\ m_t m = denote_alpha a
+  | FValueErr => doc_interp (e_ts e) sty f sf = None
+  | FStyleErr => False
+  end.
+Proof. exact format_geometry_agrees. Qed.
+Print Assumptions C19_format_geometry_agrees.
+
+(** the result depends on the environment through the reported terminal size only ... *)
+Theorem C19_format_env_independent : forall e1 e2 sty rs f sf,
+  e_ts e1 = e_ts e2 -> impl_format e1 sty rs f sf = impl_format e2 sty rs f sf.
+Proof. exact format_env_independent. Qed.
+Print Assumptions C19_format_env_independent.
+
+(** ... in particular: forall tty, fmt tty spec = fmt (negb tty) spec, for each stream *)
+Theorem C19_format_tty_independent : forall ts i o r sty rs f sf,
+  let fmt i o r := impl_format {| e_ts := ts; e_in_tty := i; e_out_tty := o; e_err_tty := r |} sty rs f sf in
+  fmt i o r = fmt i (negb o) r /\ fmt i o r = fmt (negb i) o r /\ fmt i o r = fmt i o (negb r).
+Proof. exact format_tty_independent. Qed.
+Print Assumptions C19_format_tty_independent.
+
+(** an explicit positive padding width / height is used AS GIVEN in every environment —
+    any terminal size (in particular a smaller one), streams on a terminal or not *)
+Theorem C19_explicit_width_as_given : forall e sty rs f sf g a sa,
+  explicit (f_width f) -> impl_format e sty rs f sf = FOk g a sa ->
+  g_width g = Z.max (int_of (f_width f)) (rc rs).
+Proof. exact explicit_width_as_given. Qed.
+Print Assumptions C19_explicit_width_as_given.
+
+Theorem C19_explicit_height_as_given : forall e sty rs f sf g a sa,
+  explicit (f_height f) -> impl_format e sty rs f sf = FOk g a sa ->
+  g_lines g = Z.max (int_of (f_height f)) (rl rs).
+Proof. exact explicit_height_as_given. Qed.
+Print Assumptions C19_explicit_height_as_given.
+
+(** ANY formatting function [F] that meets the documented meaning in every environment
+    accepts the same specifiers and pads to the same size whatever the streams are, and
+    pads an explicit width as written ([F] and its conformance are the hypotheses) *)
+Theorem C19_conforming_format_ignores_tty :
+  forall F : env -> style -> rsize -> fields -> option sfields -> option geom,
+  (forall e sty rs f sf,
+     match F e sty rs f sf with
+     | Some g => exists m, doc_interp (e_ts e) sty f sf = Some m /\ geom_ok m rs g = true
+     | None => doc_interp (e_ts e) sty f sf = None
+     end) ->
+  forall e1 e2 sty rs f sf, e_ts e1 = e_ts e2 ->
+    match F e1 sty rs f sf, F e2 sty rs f sf with
+    | Some g1, Some g2 => g_width g1 = g_width g2 /\ g_lines g1 = g_lines g2
+    | None, None => True
+    | _, _ => False
+    end.
+Proof. exact conforming_format_ignores_tty. Qed.
+Print Assumptions C19_conforming_format_ignores_tty.
+
+Theorem C19_conforming_explicit_width :
+  forall F : env -> style -> rsize -> fields -> option sfields -> option geom,
+  (forall e sty rs f sf,
+     match F e sty rs f sf with
+     | Some g => exists m, doc_interp (e_ts e) sty f sf = Some m /\ geom_ok m rs g = true
+     | None => doc_interp (e_ts e) sty f sf = None
+     end) ->
+  forall e sty rs f sf g, explicit (f_width f) -> F e sty rs f sf = Some g ->
+    g_width g = Z.max (int_of (f_width f)) (rc rs).
+Proof. exact conforming_explicit_width. Qed.
+Print Assumptions C19_conforming_explicit_width.
+
+(** the excluded design — padding width capped at the terminal width when standard
+    output is a terminal — IS the code whenever stdout is not a terminal (no run on a pipe
+    can see it) and whenever the padding width fits the terminal ... *)
+Theorem C19_ttycap_invisible_off_tty : forall e sty rs f sf,
+  e_out_tty e = false -> impl_format_ttycap e sty rs f sf = impl_format e sty rs f sf.
+Proof. exact ttycap_invisible_off_tty. Qed.
+Print Assumptions C19_ttycap_invisible_off_tty.
+
+Theorem C19_ttycap_invisible_within_terminal : forall e sty rs f sf,
+  match interp (e_ts e) sty f sf with Accepted r => (r_width r <= cols (e_ts e))%Z | _ => True end ->
+  impl_format_ttycap e sty rs f sf = impl_format e sty rs f sf.
+Proof. exact ttycap_invisible_within_terminal. Qed.
+Print Assumptions C19_ttycap_invisible_within_terminal.
+
+(** ... and contradicts the documented geometry on a terminal: "100" in 80 columns *)
+Theorem C19_ttycap_refuted :
+  fields_wf f100 = true /\ explicit (f_width f100) /\
+  exists g a sa, impl_format_ttycap (on_tty true) Block rs21 f100 None = FOk g a sa
+    /\ g_width g = 80%Z
+    /\ forall m, doc_interp (e_ts (on_tty true)) Block f100 None = Some m -> geom_ok m rs21 g = false.
+Proof. exact ttycap_refuted. Qed.
+Print Assumptions C19_ttycap_refuted.
